@@ -299,7 +299,7 @@ pub enum POp {
     /// (name index among names interned so far, version set label index)
     VSet(u8, u8),
     Solvable(u8),
-    /// union of the last k interned version sets (k = 2 or 3); k = 9 / 8 / 7: members [x, y, x] / [x, x] / [x, x, y]
+    /// union of the last k interned version sets (k = 2, 3, 4 or 6); k = 9 / 8 / 7: members [x, y, x] / [x, x] / [x, x, y]
     Union(u8),
 }
 
@@ -555,7 +555,7 @@ pub fn run_c18(ctx: &Ctx) -> i32 {
     let depth = if q { 4 } else { 6 };
     let mut rep = Report::new(
         "model_checking",
-        "breadth-first search over sequences of intern_package_name (3 names), intern_string (2), intern_version_set (3 names x 2 sets), intern_solvable (3 names), intern_version_set_union (2 or 3 members) from pools pre-filled with 0/126/127/128/255/256 items per arena (so the 128-element chunk boundary is crossed within the depth); after every operation every id ever returned is resolved again and must give the same content at the same address; non-trivial = distinct canonical states",
+        "breadth-first search over sequences of intern_package_name (3 names), intern_string (2), intern_version_set (3 names x 2 sets), intern_solvable (3 names), intern_version_set_union (2, 3, 4 or 6 distinct members, or with repeated members) from pools pre-filled with 0/126/127/128/255/256 items per arena (so the 128-element chunk boundary is crossed within the depth); after every operation every id ever returned is resolved again and must give the same content at the same address; non-trivial = distinct canonical states",
     );
     rep.assumptions.push("address stability is observed by re-resolving ids (safe code); a moved element shows as a changed address".into());
     let mut ops = vec![];
@@ -575,6 +575,9 @@ pub fn run_c18(ctx: &Ctx) -> i32 {
     }
     ops.push(POp::Union(2));
     ops.push(POp::Union(3));
+    // more members than the small-vector representation of a union keeps inline
+    ops.push(POp::Union(4));
+    ops.push(POp::Union(6));
     ops.push(POp::Union(9));
     ops.push(POp::Union(8));
     ops.push(POp::Union(7));
